@@ -15,6 +15,8 @@ func init() { register("C15", checkC15) }
 
 func checkC15(c *Ctx) {
 	r := c.R
+	r.Rule("R02.3", "(shared with C02) each message is one record at the bridge's severity: the only payload that is not the finished buffer is the blank line of Print/Println, taken exactly for lvl == AlwaysLevel")
+	r.Rule("R16.3", "(shared with C16) the record's own time: every format branch of the timestamp printer passes the instant stored for the record, which WriteThru takes from the log/slog record")
 	r.Rule("R15.1", "level tables: mLogSlogLevelToLevel maps exactly the four standard log/slog levels to their namesakes; logsloglevel2Level agrees with it on those four; no foreign level becomes Panic/Fatal except the explicit constants (R12.5, shared)")
 	r.Rule("R15.2", "handler gate: handler4LogSlog.Enabled answers, for a mapped level, with the underlying logger's EnabledContext for the mapped severity and the caller's context; Handle maps the record's level through the same table, so Enabled and Handle agree on the severity")
 	r.Rule("R15.3", "content pass-through: Handle hands on the record's own time, message and all attributes (converted, the derived handler's fields in front) unmodified and emits exactly once per path; convertAttrToField has an arm for every log/slog.Kind constant declared by the loaded standard library, the Group arm converts every member and the LogValuer arm resolves and recurses")
@@ -37,6 +39,8 @@ func checkC15(c *Ctx) {
 		handleDecision(c, p, m)
 		c15Bridge(c, p, m)
 		c01Decision(c, p, m)
+		c02Newline(c, p, m)
+		c16Timestamp(c, p, m)
 		c08Stores(c, p, m)
 	}
 	r.Rule("R08.1", "(shared with C08) a record carries all ITS attributes: nothing on the adapter's and the printer's path writes memory that outlives the call (a per-handler scratch list reused between records lets two overlapping Handle calls exchange their attributes)")
@@ -441,6 +445,25 @@ func c15Handler(c *Ctx, p *Prog, m *Model) {
 					if !isAttrKey(cs.Common().Args[0], caf.Params[0]) {
 						r.Bad("R15.3", "convertAttrToField:key:"+nm(cal), p.Pos(instrPos(cs)), "the converted attribute does not keep the log/slog attribute's key")
 					}
+					// ... and the accessor is the one of the arm's own kind: Bool(key, v.Bool()), Any(key, v.Any()); the text
+					// accessor String() in another arm renders the value with fmt.Sprint instead of handing it on
+					for v := cs.Common().Args[1]; ; {
+						if cv, isCv := v.(*ssa.Convert); isCv {
+							v = cv.X
+							continue
+						}
+						if mi, isMI := v.(*ssa.MakeInterface); isMI {
+							v = mi.X
+							continue
+						}
+						if acc, isCall := v.(*ssa.Call); isCall {
+							if ac := calleeOf(acc); ac != nil && ac.Pkg != nil && ac.Pkg.Pkg.Path() == "log/slog" && ac.Signature.Recv() != nil && typeName(ac.Signature.Recv().Type()) == "Value" {
+								r.Check(ac.Name() == nm(cal), "R15.3", "convertAttrToField:accessor:"+nm(cal), p.Pos(instrPos(cs)), "the arm reads the value with the accessor of its own kind ("+ac.Name()+")",
+									"the "+nm(cal)+" arm reads the value with Value."+ac.Name()+"(): the attribute does not arrive with its value (Value.String() of a non-string kind is its fmt.Sprint text)")
+							}
+						}
+						break
+					}
 					// the value is the accessor's result itself: no conversion that loses part of its range
 					var lossy []string
 					for v := cs.Common().Args[1]; ; {
@@ -605,14 +628,19 @@ func c15Derived(c *Ctx, p *Prog, m *Model) {
 					break
 				}
 				hasOld, hasNew, freshBase := false, false, true
+				dOld, dNew := -1, -1 // position in the chain: 0 = appended last
 				cur := outer
 				for depth := 0; cur != nil && depth < 4; depth++ {
 					arg1 := cur.Common().Args[1]
 					if dependsOnFieldLoad(arg1, "handler4LogSlog", "fields") {
 						hasOld = true
+						dOld = depth
 					}
 					if dependsOnParam(arg1, wf.Params[len(wf.Params)-1]) {
 						hasNew = true
+						if dNew < 0 {
+							dNew = depth
+						}
 					}
 					base := strip(cur.Common().Args[0])
 					if inner, ok := base.(*ssa.Call); ok && isBuiltinCall(inner, "append") {
@@ -626,6 +654,7 @@ func c15Derived(c *Ctx, p *Prog, m *Model) {
 					if call, ok := base.(*ssa.Call); ok {
 						if cal := calleeOf(call); cal != nil && (nm(cal) == "Clip" || nm(cal) == "Clone") {
 							hasOld = true
+							dOld = depth + 1
 						}
 					}
 					cur = nil
@@ -638,6 +667,9 @@ func c15Derived(c *Ctx, p *Prog, m *Model) {
 				}
 				if !hasNew {
 					probs = append(probs, "the fields given are not added")
+				}
+				if hasOld && hasNew && dOld >= 0 && dNew >= 0 && dOld <= dNew {
+					probs = append(probs, "the fields given are put in front of the receiver's fields: among equal keys the last one wins, so a key bound again by a later With/WithGroup keeps the parent's old value")
 				}
 				okFields = freshBase && hasOld && hasNew
 			}
